@@ -929,4 +929,88 @@ MUTANTS = [
                         )))
                     }
                 }""")]},
+    # ---- round 2 of behaviour-preserving variants: private helpers renamed, string building restyled
+    {"id": "keep-rename-private-helpers", "kind": "preserving", "props": [], "occurrence": "all", "edits": [
+        ("src/errors/json.rs", "description_rec", "describe_rest"),
+        ("src/errors/json.rs", "single_description", "describe_one"),
+        ("src/errors/json.rs", "fn order(", "fn rank("),
+        ("src/errors/json.rs", "sort_by_key(order)", "sort_by_key(rank)"),
+        ("src/errors/json.rs", "rec(", "walk("),
+        ("src/errors/query_params.rs", "rec(", "walk("),
+    ]},
+    {"id": "keep-loc-key-format", "kind": "preserving", "props": [], "edits": [
+        ("src/errors/json.rs", 'ValuePointerRef::Key { key, prev } => rec(*prev) + "." + key,', 'ValuePointerRef::Key { key, prev } => format!("{}.{key}", rec(*prev)),'),
+        ("src/errors/query_params.rs", 'rec(*prev) + "." + key', 'format!("{}.{}", rec(*prev), key)'),
+    ]},
+    {"id": "keep-loc-index-add", "kind": "preserving", "props": [], "edits": [
+        ("src/errors/json.rs", 'ValuePointerRef::Index { index, prev } => format!("{}[{index}]", rec(*prev)),', 'ValuePointerRef::Index { index, prev } => rec(*prev) + "[" + &index.to_string() + "]",'),
+    ]},
+    {"id": "keep-query-origin-if-let", "kind": "preserving", "props": [], "edits": [
+        ("src/errors/query_params.rs", "                if matches!(prev, ValuePointerRef::Origin) {\n                    key.to_owned()\n                } else {\n                    rec(*prev) + \".\" + key\n                }",
+         "                match prev {\n                    ValuePointerRef::Origin => key.to_string(),\n                    _ => rec(*prev) + \".\" + key,\n                }"),
+    ]},
+    {"id": "keep-query-origin-is-origin", "kind": "preserving", "props": [], "edits": [
+        ("src/errors/query_params.rs", "                if matches!(prev, ValuePointerRef::Origin) {", "                if prev.is_origin() {"),
+    ]},
+    {"id": "c14-index-wrong-brackets", "props": ["C14"], "edits": [("src/errors/json.rs", 'format!("{}[{index}]", rec(*prev))', 'format!("{}.{index}", rec(*prev))')]},
+    {"id": "c14-key-no-separator-nested", "props": ["C14"], "edits": [("src/errors/json.rs", 'rec(*prev) + "." + key,', 'rec(*prev) + key,')]},
+    {"id": "c17-join-two-items-comma", "props": ["C17"], "edits": [("src/errors/json.rs", '            } else if *count_items == 1 {\n                message.push_str(&format!(" or {msg_part}"));', '            } else if *count_items == 1 && false {\n                message.push_str(&format!(" or {msg_part}"));')]},
+    {"id": "c17-join-no-increment", "props": ["C17"], "edits": [("src/errors/json.rs", "            *count_items += 1;\n", "            *count_items |= 1;\n")]},
+    {"id": "c17-join-counter-starts-at-one", "props": ["C17"], "edits": [("src/errors/json.rs", "description_rec(kinds.as_slice(), &mut 0, &mut message);", "description_rec(kinds.as_slice(), &mut 1, &mut message);")]},
+    {"id": "keep-c17-join-match-form", "kind": "preserving", "props": [], "edits": [("src/errors/json.rs", """            if *count_items == 0 {
+                message.push_str(&msg_part);
+            } else if *count_items == 1 {
+                message.push_str(&format!(" or {msg_part}"));
+            } else {
+                message.push_str(&format!(", or {msg_part}"));
+            }""", """            match *count_items {
+                0 => {}
+                1 => message.push_str(" or "),
+                _ => message.push_str(", or "),
+            }
+            message.push_str(&msg_part);""")]},
+    {"id": "keep-c17-join-add-assign", "kind": "preserving", "props": [], "edits": [("src/errors/json.rs", """            if *count_items == 0 {
+                message.push_str(&msg_part);
+            } else {
+                message.push_str(&format!(", {msg_part}"));
+            }
+""", """            if *count_items > 0 {
+                *message += ", ";
+            }
+            *message += &msg_part;
+""")]},
+    {"id": "keep-vec-merge-helper", "kind": "preserving", "props": [], "edits": [
+        (IMPLS, """                        Err(e) => {
+""" + VEC_MERGE + """
+                        }
+                    }
+                }
+                if let Some(e) = error {
+                    Err(e)
+                } else {
+                    Ok(vec)
+                }""", """                        Err(e) => {
+                            error = fold_child_error(error, e, location.push_index(index))?;
+                        }
+                    }
+                }
+                if let Some(e) = error {
+                    Err(e)
+                } else {
+                    Ok(vec)
+                }"""),
+        (IMPLS, "impl<T, E> Deserr<E> for Vec<T>\nwhere", """/// Hands a child's error to the accumulated one: `Ok(Some(merged))` to keep going, `Err(merged)` to stop.
+fn fold_child_error<E>(acc: Option<E>, e: E, location: ValuePointerRef) -> Result<Option<E>, E>
+where
+    E: DeserializeError,
+{
+    match E::merge(acc, e, location) {
+        ControlFlow::Continue(e) => Ok(Some(e)),
+        ControlFlow::Break(e) => Err(e),
+    }
+}
+
+impl<T, E> Deserr<E> for Vec<T>
+where"""),
+    ]},
 ]
